@@ -1226,6 +1226,10 @@ impl Wallet {
             });
             for key in unspent_slips {
                 let slip = self.slips.get(key).unwrap();
+                if slip.block_id < last_valid_slips_in_block_id {
+                    // about to be rebroadcast (or older): the next block cannot spend it
+                    continue;
+                }
 
                 collected_from_unspent_slips += slip.amount;
 
